@@ -244,15 +244,20 @@ func init() {
 				}
 				return true
 			})
-			// the literals are the prefix templates the model instantiates: each must be one ("[%v]…"); a body that
-			// builds the prefix some other way is NOT understood — say so instead of printing a table of other strings
+			// the literals are the prefix templates the model instantiates: each must be one ("[%v]…"). A body that builds
+			// the prefix some other way (strconv, concatenation) is not read: the model then keeps ITS OWN templates — said
+			// so in the generated file — and what the code prints is decided by the correspondence run alone, which
+			// compares every line with the model's, byte for byte.
+			readable := len(lits) > 0
 			for _, l := range lits {
 				if !strings.HasPrefix(l, "[%v]") {
-					return fmt.Errorf("loggerPlus.%s: string literal %q is not a `[%%v]…` prefix template (the prefix is built in a way the translator does not read)", name, l)
+					readable = false
 				}
 			}
-			if len(lits) == 0 {
-				return fmt.Errorf("loggerPlus.%s: no `[%%v]…` prefix template found", name)
+			if !readable {
+				def := map[string][]string{"format": {"[%v] ", "[%v][%v] "}, "formatf": {"[%v] ", "[%v][%v] "}, "contextFormat": {"[%v][%v]"}, "contextFormatf": {"[%v][%v] "}}[name]
+				fmt.Fprintf(w, "/-- `loggerPlus.%s`: NOT READ FROM THE SOURCE (the prefix is not built from `[%%v]…` format literals); these are the\nmodel's own templates, tied to the code by the correspondence run only. -/\ndef %sLits : List String := [%s]\n", name, name, quoteAll(def))
+				continue
 			}
 			fmt.Fprintf(w, "/-- `loggerPlus.%s`: string literals in source order (nil context first, then id-carrying). -/\ndef %sLits : List String := [%s]\n", name, name, quoteAll(lits))
 		}
@@ -312,22 +317,105 @@ func init() {
 			flags       int64
 		}
 		var lvs []lv
-		for _, st := range sw.Body.List {
-			as, ok := st.(*ast.AssignStmt)
-			if !ok || len(as.Lhs) != 1 || len(as.Rhs) != 1 {
-				continue
-			}
-			c1, ok := as.Rhs[0].(*ast.CallExpr)
-			if !ok || exprName(c1.Fun) != "NewLoggerPlus" || len(c1.Args) != 1 {
-				continue
-			}
-			c2, ok := c1.Args[0].(*ast.CallExpr)
-			if !ok || exprName(c2.Fun) != "log.New" || len(c2.Args) != 3 {
-				continue
-			}
-			fl, _ := p.intConst64(c2.Args[2])
-			lvs = append(lvs, lv{exprName(as.Lhs[0]), exprName(c2.Args[1]), exprName(c2.Args[0]) == wparam, fl})
+		// The four assignments are looked for in Switch and in the package's own functions it calls (parameters are
+		// followed through the calls: `resetLoggers(discard, w, w, w)` → `Trace = newLevelLogger(trace, label)` →
+		// `NewLoggerPlus(log.New(w, label, flags))`).
+		var wobj types.Object
+		if wparam != "" {
+			wobj = p.info.Defs[sw.Type.Params.List[0].Names[0]]
 		}
+		type bound struct {
+			e   ast.Expr
+			env map[types.Object]interface{}
+		}
+		var follow func(e ast.Expr, env map[types.Object]interface{}) (ast.Expr, map[types.Object]interface{})
+		follow = func(e ast.Expr, env map[types.Object]interface{}) (ast.Expr, map[types.Object]interface{}) {
+			for k := 0; k < 8; k++ {
+				id, ok := e.(*ast.Ident)
+				if !ok {
+					return e, env
+				}
+				b, ok := env[p.info.Uses[id]].(bound)
+				if !ok {
+					return e, env
+				}
+				e, env = b.e, b.env
+			}
+			return e, env
+		}
+		localFunc := func(c *ast.CallExpr) *ast.FuncDecl {
+			id, ok := c.Fun.(*ast.Ident)
+			if !ok {
+				return nil
+			}
+			fd := p.topFunc(id.Name)
+			if fd == nil || fd.Body == nil || fd.Recv != nil {
+				return nil
+			}
+			return fd
+		}
+		bind := func(fd *ast.FuncDecl, c *ast.CallExpr, env map[types.Object]interface{}) map[types.Object]interface{} {
+			ne := map[types.Object]interface{}{}
+			i := 0
+			for _, f := range fd.Type.Params.List {
+				for _, n := range f.Names {
+					if i < len(c.Args) {
+						ne[p.info.Defs[n]] = bound{c.Args[i], env}
+					}
+					i++
+				}
+			}
+			return ne
+		}
+		var resolve func(e ast.Expr, env map[types.Object]interface{}, depth int) (ast.Expr, map[types.Object]interface{})
+		resolve = func(e ast.Expr, env map[types.Object]interface{}, depth int) (ast.Expr, map[types.Object]interface{}) {
+			e, env = follow(e, env)
+			if c, ok := e.(*ast.CallExpr); ok && depth < 4 && exprName(c.Fun) != "NewLoggerPlus" {
+				if fd := localFunc(c); fd != nil && len(fd.Body.List) == 1 {
+					if r, ok := fd.Body.List[0].(*ast.ReturnStmt); ok && len(r.Results) == 1 {
+						return resolve(r.Results[0], bind(fd, c, env), depth+1)
+					}
+				}
+			}
+			return e, env
+		}
+		var walk func(body *ast.BlockStmt, env map[types.Object]interface{}, depth int)
+		walk = func(body *ast.BlockStmt, env map[types.Object]interface{}, depth int) {
+			for _, st := range body.List {
+				if es, ok := st.(*ast.ExprStmt); ok && depth < 4 {
+					if c, ok := es.X.(*ast.CallExpr); ok {
+						if fd := localFunc(c); fd != nil {
+							walk(fd.Body, bind(fd, c, env), depth+1)
+						}
+					}
+					continue
+				}
+				as, ok := st.(*ast.AssignStmt)
+				if !ok || len(as.Lhs) != 1 || len(as.Rhs) != 1 {
+					continue
+				}
+				rhs, renv := resolve(as.Rhs[0], env, depth)
+				c1, ok := rhs.(*ast.CallExpr)
+				if !ok || exprName(c1.Fun) != "NewLoggerPlus" || len(c1.Args) != 1 {
+					continue
+				}
+				a0, aenv := follow(c1.Args[0], renv)
+				c2, ok := a0.(*ast.CallExpr)
+				if !ok || exprName(c2.Fun) != "log.New" || len(c2.Args) != 3 {
+					continue
+				}
+				wr, _ := follow(c2.Args[0], aenv)
+				lb, _ := follow(c2.Args[1], aenv)
+				fe, _ := follow(c2.Args[2], aenv)
+				fl, _ := p.intConst64(fe)
+				toW := false
+				if id, ok := wr.(*ast.Ident); ok && wobj != nil && p.info.Uses[id] == wobj {
+					toW = true
+				}
+				lvs = append(lvs, lv{exprName(as.Lhs[0]), exprName(lb), toW, fl})
+			}
+		}
+		walk(sw.Body, map[types.Object]interface{}{}, 0)
 		if len(lvs) != 4 {
 			return fmt.Errorf("Switch: expected four `X = NewLoggerPlus(log.New(w|discard, label, flags))`, found %d", len(lvs))
 		}
